@@ -3,7 +3,7 @@
 For every axis argument in [-ndim-1, ndim+1] (the property's range) and
 symbolic axis lengths: if the constructor returns normally then NumPy accepts
 the same call (spec predicates written from NumPy's documentation, validated
-against NumPy by the spec self-check) and ``.shape``/``.ndim`` of the result
+against NumPy on samples: contracts/specgrid.py for slices and //, %; sampled replays of pyvc/report.py otherwise) and ``.shape``/``.ndim`` of the result
 evaluate without raising and equal NumPy's shape.  Over-rejection is allowed.
 """
 from __future__ import annotations
